@@ -835,22 +835,33 @@ func (c *Ctx) checkProgramLoopsAndAllocs(r *Report) {
 			}
 			return false
 		}
+		// a function (closure or helper) that stores State.Context on every path from its entry to a return,
+		// directly or through another such helper
+		var alwaysStores func(f *ssa.Function, depth int) bool
+		isRet := func(x ssa.Instruction) bool { _, ok := x.(*ssa.Return); return ok }
+		alwaysStores = func(f *ssa.Function, depth int) bool {
+			if f == nil || len(f.Blocks) == 0 || depth > 3 {
+				return false
+			}
+			return mustPassFromEntry(f, func(x ssa.Instruction) bool {
+				if _, ok := isCtxStore(x); ok {
+					return true
+				}
+				if call, ok := x.(*ssa.Call); ok {
+					return alwaysStores(call.Common().StaticCallee(), depth+1)
+				}
+				return false
+			}, isRet) == nil
+		}
 		restores := func(in ssa.Instruction, skip *ssa.Store) bool {
 			if st, ok := isCtxStore(in); ok && st != skip {
 				return true
 			}
-			if d, ok := in.(*ssa.Defer); ok {
-				if mc, ok := d.Call.Value.(*ssa.MakeClosure); ok {
-					if cf, ok := mc.Fn.(*ssa.Function); ok {
-						found := false
-						eachInstr(cf, func(x ssa.Instruction) {
-							if _, ok := isCtxStore(x); ok {
-								found = true
-							}
-						})
-						return found
-					}
-				}
+			switch d := in.(type) {
+			case *ssa.Defer:
+				return alwaysStores(d.Call.StaticCallee(), 0)
+			case *ssa.Call:
+				return alwaysStores(d.Call.StaticCallee(), 0)
 			}
 			return false
 		}
